@@ -99,8 +99,15 @@ class BindGen:
         rng = self.rng
         if not done:
             return
+        # importing a module runs the __init__ of every package above it first: a target is eligible only when
+        # those packages have been generated already too (otherwise they could import back: a hidden cycle)
+        names_done = {d.q for d in done}
+        eligible = [d for d in done
+                    if all(".".join(d.q.split(".")[:k]) in names_done for k in range(1, d.q.count(".") + 1))]
+        if not eligible:
+            return
         for _ in range(count):
-            t = rng.choice(done)
+            t = rng.choice(eligible)
             forms = ["import", "import_as", "from", "from_as", "from_mod", "from_mod_as"]
             if self.star and scope == m.q:
                 forms.append("star")
